@@ -37,6 +37,10 @@ class IndexedModelFunctionFormatter(FunctionFormatter):
             latex_expression_string=latex_expression_string,
         )
 
+    @classmethod
+    def _get_object_type_name(cls):
+        return "model_function_formatter"
+
     def _get_format_kwargs(self, format_as_latex=False):
         """Create a dictionary containing argument name and format pairs.
 
